@@ -10,6 +10,7 @@
  * OFV_MODE 0: every matrix bit symbolic (small p, q).
  * OFV_MODE 1: a concrete unit-lower-triangular all-ones matrix with extra all-ones rows (every elimination step XORs every row
  *             below), for column counts around the 32/64-bit word boundaries; right-hand sides symbolic.
+ * OFV_MODE 2: a concrete unit-upper-triangular all-ones matrix (every back-substitution step adds every later variable).
  * BOUNDED in (p, q); symbol length 1 (the kernels' own contracts for every length are C13).
  */
 #include "ofv.h"
@@ -43,7 +44,11 @@ int main(void)
 			REQUIRES(in_bit[i][j] <= 1);
 			bit[i][j] = in_bit[i][j];
 #else
-			bit[i][j] = (j <= i) ? 1 : 0;	/* unit lower triangular, all ones below the diagonal, extra rows all ones */
+#if OFV_MODE == 1
+			bit[i][j] = (j <= i) ? 1 : 0;	/* unit lower triangular, all ones below the diagonal, extra rows all ones: every elimination step XORs */
+#else
+			bit[i][j] = (i < Q) ? (j >= i) : 0;	/* unit upper triangular, all ones above the diagonal, extra rows zero: every back-substitution step adds */
+#endif
 #endif
 			of_mod2dense_set(m, i, j, bit[i][j]);
 		}
